@@ -145,7 +145,10 @@ def der_regions(der):
 class Hierarchy:
     """root (self-signed) -> [extra intermediates] -> platform CA -> PCK leaf."""
 
-    def __init__(self, rng, extra_intermediates=0):
+    def __init__(self, rng, extra_intermediates=0, not_before=None, not_after=None):
+        """not_before / not_after: validity window of the platform CA and PCK certificates
+        (default: wide margins around CLOCK)"""
+        nb, na = not_before, not_after
         self.root_key = P256Key.from_rng(rng)
         self.root_der = make_cert("Verif SGX Root CA", self.root_key, "Verif SGX Root CA",
                                   self.root_key, 1, True)
@@ -158,10 +161,10 @@ class Hierarchy:
             parent_cn, parent_key = cn, k
         self.ca_key = P256Key.from_rng(rng)
         self.ca_der = make_cert("Verif SGX PCK Platform CA", self.ca_key, parent_cn, parent_key,
-                                2, True)
+                                2, True, nb, na)
         self.pck_key = P256Key.from_rng(rng)
         self.pck_der = make_cert("Verif SGX PCK Certificate", self.pck_key,
-                                 "Verif SGX PCK Platform CA", self.ca_key, 3, False)
+                                 "Verif SGX PCK Platform CA", self.ca_key, 3, False, nb, na)
 
     def root_pem(self):
         return pem(self.root_der)
